@@ -117,11 +117,20 @@ class CState:
         return hash(self.ident)
 
 
+class _Con:
+    """amsg connection stand-in."""
+    def __init__(self, worker):
+        self.worker = worker
+
+    def is_closed(self):
+        return self.worker.dead
+
+
 class Worker(P.BaseWorker):
     def __init__(self, tag):
         super().__init__(immutables.Map(), None, None, None, None, None, None)
         self.dead = False
-        self._con = type('C', (), {'is_closed': lambda s, w=self: w.dead})()
+        self._con = _Con(self)
         self.mod = _MODS[tag]       # loaded once; its globals are reset per history
         self.mod.pickle = FailingPickle()
         self.mod.COMPILER = Recorder()
